@@ -542,7 +542,7 @@ fn post_checks(
     out: &mut Vec<Violation>,
 ) {
     let sel = &cfg.props;
-    let kn = format!("{}|{rel}|{}", op.k.name(), outcome_of(ret));
+    let kn = format!("{}|{rel}|{}", crate::ops::sig_kind(op, ret), outcome_of(ret));
     let mut push = |prop: &str, sig: String, detail: String| {
         out.push(Violation { prop: prop.to_string(), sig, detail, at: label });
     };
@@ -565,6 +565,34 @@ fn post_checks(
             section = "models";
         }
         push("C11", format!("{kn}|{section}|{fault}"), format!("{} returned {} but the model changed: {detail}", op.brief(), ret.shape));
+    }
+
+    // ---- C10 (nothing lost on write): after a write() that reported success the disk holds, under each file's name,
+    // exactly the text the model produces for that file
+    if op.k == K::MWrite && !ret.is_err() && ret.panic.is_none() && !ret.aborted && !ret.skipped {
+        if let Some(m) = world.model(op.a) {
+            if let Some((_, ms)) = post.models.iter().find(|(_, ms)| ms.model == m) {
+                for fi in &ms.files {
+                    if ms.files.iter().filter(|o| o.name == fi.name).count() > 1 {
+                        // two files of one model under one name (a listed finding of its own): no single expected text
+                        continue;
+                    }
+                    let Ok(text) = fi.f.serialize() else { continue };
+                    match crate::simfs::get(std::path::Path::new(&fi.name)) {
+                        None => push("C10", format!("{kn}|written-file-missing|{fault}"), format!("{} returned Ok but `{}` is not on the disk", op.brief(), fi.name)),
+                        Some(d) if d != text.as_bytes() => {
+                            let at = d.iter().zip(text.as_bytes()).position(|(a, b)| a != b).unwrap_or(d.len().min(text.len()));
+                            push(
+                                "C10",
+                                format!("{kn}|written-file-differs|{fault}"),
+                                format!("{} returned Ok but `{}` on the disk ({} bytes) is not the text of the file ({} bytes; first difference at byte {at})", op.brief(), fi.name, d.len(), text.len()),
+                            )
+                        }
+                        _ => {}
+                    }
+                }
+            }
+        }
     }
 
     // ---- C03 (second sentence): stale handles
@@ -1055,7 +1083,7 @@ pub fn run_history(cfg: &HistCfg) -> HistResult {
         let (tt0, gf0) = eng.with_state(|st| (st.counters.try_timed, st.counters.ghost_fired));
         let ret = exec(&world, label, &op);
         let (tt1, gf1) = eng.with_state(|st| (st.counters.try_timed, st.counters.ghost_fired));
-        let fault = fault_name(&cfg.ghost, gf1 - gf0);
+        let fault = if ret.io_fired > 0 { "io" } else { fault_name(&cfg.ghost, gf1 - gf0) };
         let mut op_edges: Vec<String> = Vec::new();
         if cfg.harvest_edges {
             let (nested, published_below) = eng.with_state(|st| (std::mem::take(&mut st.nested), st.published_below()));
@@ -1154,7 +1182,7 @@ pub fn run_history(cfg: &HistCfg) -> HistResult {
         // ---- engine findings (C12 / C15)
         let new_findings: Vec<Finding> = eng.with_state(|st| st.findings[findings_seen..].to_vec());
         findings_seen += new_findings.len();
-        let kn = format!("{}|{rel}|{}", op.k.name(), outcome_of(&ret));
+        let kn = format!("{}|{rel}|{}", crate::ops::sig_kind(&op, &ret), outcome_of(&ret));
         let kname = op.k.name();
         for f in &new_findings {
             match f {
